@@ -17,3 +17,6 @@ ASSUMPTIONS = ["BinaryIO.tell/seek/readline semantics; re match offsets index th
 def run(project, rep):
     rep.run(H.h_rules, project, rep)
     rep.run(H.b_r9_quote_backrefs, project, rep)
+    # "header fields equal to those in the file": each constructor parameter is stored under its own name, from its
+    # own parameter, as given (B-R2; the rest of the B family is C12's)
+    rep.run_only(("B-R2",), H.b_rules, project, rep)
